@@ -173,7 +173,9 @@ func (e Float32Engine) FMAScalar(a Tensor, x interface{}, y Tensor) (retVal Tens
 // Add performs a + b elementwise. Both a and b must have the same shape.
 // Acceptable FuncOpts are: UseUnsafe(), WithReuse(T), WithIncr(T)
 func (e Float32Engine) Add(a Tensor, b Tensor, opts ...FuncOpt) (retVal Tensor, err error) {
-	if a.RequiresIterator() || b.RequiresIterator() {
+	if a.RequiresIterator() || b.RequiresIterator() || !a.Shape().Eq(b.Shape()) {
+		// the fast path below walks raw storage: everything else (and the refusal of shapes that do not fit) is the
+		// default engine's business
 		return e.StdEng.Add(a, b, opts...)
 	}
 
@@ -184,6 +186,10 @@ func (e Float32Engine) Add(a Tensor, b Tensor, opts ...FuncOpt) (retVal Tensor, 
 	}
 	if err = e.checkThree(a, b, reuse); err != nil {
 		return nil, errors.Wrap(err, "Failed checks")
+	}
+	if reuse != nil && reuse.RequiresIterator() {
+		// a destination that is a view or lazily transposed cannot be written as raw storage either
+		return e.StdEng.Add(a, b, opts...)
 	}
 
 	var hdrA, hdrB, hdrReuse *storage.Header
@@ -203,8 +209,13 @@ func (e Float32Engine) Add(a Tensor, b Tensor, opts ...FuncOpt) (retVal Tensor, 
 		vecf32.IncrAdd(dataA, dataB, dataReuse)
 		retVal = reuse
 	case toReuse:
-		copy(dataReuse, dataA)
-		vecf32.Add(dataReuse, dataB)
+		if len(dataReuse) > 0 && len(dataB) > 0 && &dataReuse[0] == &dataB[0] {
+			// the reuse tensor is operand b itself: copying a over it first would lose b
+			vecf32.Add(dataReuse, dataA)
+		} else {
+			copy(dataReuse, dataA)
+			vecf32.Add(dataReuse, dataB)
+		}
 		retVal = reuse
 	case !safe:
 		vecf32.Add(dataA, dataB)
